@@ -5,11 +5,12 @@ import os, sys, traceback
 HERE = os.path.dirname(os.path.abspath(__file__))
 sys.path.insert(0, os.path.dirname(HERE))
 from vlib import core
-from tools import translate_loops
+from tools import translate_loops, translate_linop
 
 JOBS = {
     "block": ("Gen_block.v", lambda repo: translate_loops.translate_block(repo)),
     "interp": ("Gen_interp.v", lambda repo: translate_loops.translate_interp(repo)),
+    "linop_table": ("Gen_linop_table.v", lambda repo: translate_linop.translate_table(repo)),
 }
 try:
     from tools import translate_more
